@@ -69,7 +69,8 @@ def pda(p):
     trans = []
     for (q, a, X), outs in p.to_dict().items():
         for (r, g) in outs:
-            trans.append((_v(q), rp.EPS if isinstance(a, PEps) else _v(a), _v(X), _v(r),
+            # an input symbol that EQUALS Epsilon() is an epsilon move for the library (Symbol("epsilon") too)
+            trans.append((_v(q), rp.EPS if (isinstance(a, PEps) or a == PEps()) else _v(a), _v(X), _v(r),
                           tuple(_v(y) for y in g if not isinstance(y, PEps))))
     _missing = object()
     z = getattr(p, "_start_stack_symbol", _missing)
